@@ -186,7 +186,7 @@ def check(prop, tier, seed):
     run.add_tlc(rmc)
     # design level
     if not os.environ.get("VERIF_SKIP_MC"):
-        for module, cfg, env in (("MC_Builder", "MC_BuilderFifo", {"UNIVERSE": "U1"}), ("MC_TableFill", "MC_TableFill", {"UNIVERSE": "U1" if tier == "quick" else "U2"})):
+        for module, cfg, env in (("MC_Builder", "MC_BuilderFifo", {"UNIVERSE": "U1"}), ("MC_TableFill", "MC_TableFill", {"UNIVERSE": "U1"})):
             rr = common.tlc_ok(module, cfg=cfg, env=env, workers=6, timeout=6000)
             run.add_tlc(rr)
             run.notes[cfg] = {"distinct": rr.distinct}
